@@ -158,6 +158,9 @@ def judge_case(cm, comps, key, off, mode, ciph, blocks=()):
         return ("the component object does not hold the content it was constructed from (component %d): given %r, holds %r"
                 % (i, given[i] if i >= 0 else given, held[i] if i >= 0 else held))[:1500], None, None
     bec = make_bec(f, blocks, key) if mode.startswith("bec2") else None
+    if bec is not None and bec.session_key != key:
+        return ("the Bec2File object does not hold the session key it was constructed with: given %s, holds %r"
+                % (key.hex(), bec.session_key)), None, None
     return write_and_judge(f, bec, key, off, mode, ciph, blocks)
 
 
